@@ -3,8 +3,8 @@
 V="$(cd "$(dirname "${BASH_SOURCE[0]}")/.." && pwd)"
 filter="${1:-}"
 bad=0
-for p in "$V"/benign/*.patch; do
-    name="$(basename "$p" .patch)"
+for p in "${BENIGN_DIR:-$V/benign}"/*.${BENIGN_EXT:-patch}; do
+    name="$(basename "$p")"
     [[ -n "$filter" && "$name" != *"$filter"* ]] && continue
     res=""
     for prop in C01 C02 C03 C10 C11 C12 C13 C14; do
